@@ -143,3 +143,57 @@ Definition h_mix_inplace (h : heap) (lam : Q) (ax ax2 : nat) : heap * nat :=
   let h1 := h_mul_ h ax lam in
   let h2 := h_mul_ h1 ax2 (1 - lam) in
   (h_add_ h2 ax ax2, ax).
+
+(* ---------- labels on the heap: which label statements create a tensor ---------- *)
+(* A heap of label vectors.  The wrapped dataset keeps the label vector of sample k (where its label is a 1-d tensor,
+   Model.LVec) at address k; class ids (Model.LInt) are not tensors.  *)
+Definition lheap := list (list Q).
+Definition lderef (h : lheap) (a : nat) : list Q := nth a h [].
+Definition l_alloc (h : lheap) (v : list Q) : lheap * nat := (h ++ [v], length h).
+
+(* kappadata/utils/one_hot.py, to_one_hot_vector(y, n_classes), as statements on tensor objects:
+     a class id:      y = one_hot(y, num_classes=n_classes); return y.float()   -- an ALLOCATING operation: a new tensor on
+                      every call (never a row / view of a table that outlives the call)
+     a float vector:  return y.float()                                          -- y itself (the dataset's object) *)
+Definition to_one_hot_vector_h (h : lheap) (l : label) (stored : nat) (n : nat) : option (lheap * nat) :=
+  match l with
+  | LInt _ => option_map (l_alloc h) (to_one_hot_vector l n)
+  | LVec _ => Some (h, stored)
+  end.
+
+Definition l_scale (w : Q) (v : list Q) : list Q := map (fun x => (x * w)%Q) v.             (* v * w : a new tensor *)
+Fixpoint l_add (a b : list Q) : list Q :=                                                  (* a + b : a new tensor *)
+  match a, b with
+  | x :: a', y :: b' => (x + y)%Q :: l_add a' b'
+  | _, _ => []
+  end.
+
+(* the label statements of KDMixWrapper.getitem_xclass for a request that returns (the draws, branches and errors are
+   those of Model.getitem_xclass):
+     untouched:  cls = to_one_hot_vector(cls, n_classes); return x, cls
+     mixed:      cls = to_one_hot_vector(cls, ..); cls2 = to_one_hot_vector(cls2, ..); cls = cls * lamb + cls2 * (1. - lamb)
+   -> the heap after the request and the address of the returned label *)
+Definition label_request_h (ds : dataset) (c : cfg) (idx : nat) (dr : list draw) (h : lheap) : option (lheap * nat) :=
+  match getitem_xclass ds c idx dr with
+  | Ok (s, _) =>
+      match s_mix s with
+      | None => to_one_hot_vector_h h (ds_cls ds idx) idx (ds_ncls ds)
+      | Some (p, w) =>
+          match to_one_hot_vector_h h (ds_cls ds idx) idx (ds_ncls ds) with
+          | None => None
+          | Some (h1, a1) =>
+              match to_one_hot_vector_h h1 (ds_cls ds p) p (ds_ncls ds) with
+              | None => None
+              | Some (h2, a2) =>
+                  let '(h3, b1) := l_alloc h2 (l_scale w (lderef h2 a1)) in
+                  let '(h4, b2) := l_alloc h3 (l_scale (1 - w) (lderef h3 a2)) in
+                  Some (l_alloc h4 (l_add (lderef h4 b1) (lderef h4 b2)))
+              end
+          end
+      end
+  | Err _ => None
+  end.
+
+(* the stored label vectors are where the dataset keeps them *)
+Definition lstore_wf (ds : dataset) (h : lheap) : Prop :=
+  forall k v, ds_cls ds k = LVec v -> (k < length h)%nat /\ lderef h k = v.
